@@ -6,97 +6,8 @@ from pathlib import Path
 ROOT = Path(__file__).resolve().parent.parent
 BASE = "cd /repo && /venv/bin/python -m pytest -ra -q -p no:cacheprovider --timeout=900 --continue-on-collection-errors tests"
 
-CHECKS = {
-    "C05": ("Lean 4 theorem vdi_read_correct (+ stream refinement) over a model of VDI.__init__/_read; layouts and constants re-extracted from the live cstruct definitions on every run; model, real code and construction truth compared on generated images",
-            "§6 C05",
-            "unbounded proof (induction over the block loop) + extraction + differential correspondence",
-            "Modelled, not verified: cstruct, array('i') endianness, AlignedStream transcription, CPython bytes/int semantics. WF = positive block size, map covers the disk, entries in {-1,-2} or inside the file."),
-    "C04": ("Lean 4 theorems vhd_read_correct / vhd_backendOK / vhd_stream_correct over a model of vhd.py (footer selection, fixed/dynamic dispatch, BAT, per-block loop); layouts/constants re-extracted each run; model, real code and construction truth compared on generated fixed and dynamic images",
-            "§6 C04",
-            "unbounded proof (induction over the sector loop) + extraction + differential correspondence",
-            "Modelled, not verified: cstruct, struct.Struct('>I'), lru_cache transparency (file immutable), AlignedStream transcription. WF: block size a multiple of 4096, BAT inside the file, allocated blocks inside the file, size within BAT coverage."),
-    "C06": ("Lean 4 theorems hds_read_correct / hds_backendOK / hds_stream_correct over a model of HDS.__init__, the cached BAT, _iter_runs (sentinel-0 run coalescer) and _read; the coalescing proof carries an invariant on the pending run, so the sparse-run/offset coincidence is covered for all geometries; layouts/constants re-extracted each run; model, real code and construction truth compared on generated v1/v2 images and parent chains",
-            "§6 C06",
-            "unbounded proof (induction over the run iterator with a pending-run invariant) + extraction + differential correspondence",
-            "Modelled, not verified: cstruct, cached_property, AlignedStream transcription, parent stream seek/read. WF: cluster size and multiplier positive, BAT covers the disk, allocated clusters inside the file. Parent assumed at least as large as the child's cluster coverage."),
-    "C03": ("Lean 4 theorems vhdx_read_correct / bat_index_matches_layout / vhdx_backendOK / vhdx_stream_correct over a model of VHDX.__init__ (file identifier, headers, region table, metadata table incl. skipping unknown optional items), BlockAllocationTable (pb/sb index, bounds, bit-field decode) and read_sectors; layouts/GUIDs/constants re-extracted each run; model, real code and construction truth compared on generated images (block sizes 1..256 MiB, > chunk-ratio blocks, sparse multi-GiB files)",
-            "§6 C03",
-            "unbounded proof (induction over the block loop; BAT index arithmetic for every chunk ratio) + extraction + differential correspondence",
-            "Modelled, not verified: cstruct (bit-fields re-probed), UUID comparison, lru_cache, AlignedStream transcription. WF: no parent, block size = whole sectors, chunk ratio > 0, BAT inside the file, payload states in {0,1,2,3,6}, present blocks inside the file."),
-    "C08": ("Lean 4 refinement theorem stream_refines_array (induction over operation lists: AlignedStream model = immutable array with cursor, for every backend satisfying BackendOK) + per-format BackendOK theorems (C03-C06 so far) + history/buffer-size independence corollaries; random operation histories on every stream class, several buffer sizes, compared op by op: real code vs Lean model vs array specification on construction truth",
-            "§6 C08",
-            "unbounded refinement proof over operation histories + differential correspondence",
-            "dissect.util.stream.AlignedStream is an external dependency, transcribed into Hv/Stream.lean (modelled, tied by correspondence). lru_cache/cached_property transparency rests on file immutability (C09). Stream classes covered so far: VDI, VHD, HDS, VHDX (VMDK, QCOW2, StorageStream are added as their models land)."),
-    "C02": ("Lean 4 theorems sparse_read_correct / getRuns_merge_sound / vmdk_backendOK / vmdk_stream_correct over a model of vmdk.py (three header layouts, footer re-read, GD sizing, grain-table and grain lookup incl. SE-sparse decoding, get_runs coalescer, read_sectors, compressed-grain reader with inflate as a parameter, RawDisk, extent walk); the coalescing proof carries a pending-run invariant; masks/shifts/layouts re-extracted each run (incl. literals inside function bodies); model (with a Lean inflate), real code and construction truth compared on generated extents of all kinds",
-            "§6 C02",
-            "unbounded proof (induction over get_runs with a pending-run invariant) + extraction + differential correspondence",
-            "Proved for uncompressed sparse extents (hosted, footer, COWD, SE-sparse) and flat extents; for stream-optimised (compressed) extents only progress is proved and the read path is covered by the executable model + correspondence (sparse_read_correct is *partial* there). zlib is a parameter of the model. WF includes 'every needed lookup returns the format's value' (evaluated per case by the driver)."),
-    "C01": ("Lean 4 executable model of qcow2.py (header + gates, v2 normalisation, extensions, L1/L2 walk, cluster and sub-cluster classification incl. extended L2, contiguous-run counting, _yield_runs, _read dispatch, compressed clusters with inflate as a parameter, backing incl. short backing files, external data file); constants/layouts/bit-counter behaviour re-extracted each run; model (with a Lean inflate), real code and construction truth compared on generated images of every advertised feature",
-            "§6 C01",
-            "executable Lean model + extraction + differential correspondence; theorems so far: extracted-constant equalities (read-path theorems are being added: see DESIGN §6 C01 status)",
-            "PARTIAL: the unbounded read-correctness theorem for QCOW2 (qcow2_read_correct) is not proved yet; what is machine-checked is the constant/layout equalities, and what ties the model to the code is the correspondence. zlib is a parameter of the model."),
-    "C10": ("Lean 4: the extent-line grammar is the regex *translated from the live RE_EXTENT_DESCRIPTOR on every run* and executed by a kernel-reducible backtracking matcher; theorem wiring_total (decide) shows every data-bearing extent kind is accepted by the grammar and mapped by VMDK.__init__; executable models of DiskDescriptor.parse, the extent walk of VMDK.read_sectors and StorageStream; real code vs model vs construction truth on generated multi-extent disks (descriptor and handle mode), Parallels storages, 20 000 extent lines and 4 000 descriptor texts per quick run",
-            "§6 C10",
-            "translator-regenerated model (regex) + kernel-evaluated table theorem + differential correspondence",
-            "PARTIAL: vmdk_concat_read_correct / storage_concat_read_correct (read = slice of the concatenation for every request) are covered by the executable models + correspondence, not yet by a theorem. Known findings D20a/D20b (ZERO/RDM/RAW extents unmapped; FLAT start offset ignored) are listed in known_findings.json."),
-    "C07": ("Executable Lean models of every layering mechanism (VHDX partially-present blocks with sector bitmaps and _iter_partial_runs, VMDK delta extents with run_parent, HDS parent chains, QCOW2 backing incl. short backing files and internal snapshots, VDI parents, Parallels snapshot-chain walk) composed into chains by the driver; theorems: hds_overlay (HDS child over any parent, from the C06 proof), snapshot-chain termination/cycle refusal; real code (real temp directories, all parent-location configurations incl. missing) vs model vs construction truth",
-            "§6 C07",
-            "executable Lean models + proved HDS overlay theorem + differential correspondence on chains of depth ≤ 4 (8 thorough)",
-            "PARTIAL: the per-format overlay theorems for VHDX partial blocks, VMDK deltas and QCOW2 backing are not proved yet (the models are executable and tied by correspondence); parent *resolution* over a real filesystem is exercised on the implementation side only — the model receives the resolved chain and checks that an absent required parent is an error."),
-    "C12": ("Lean 4 gate theorems in the form 'accepted ⇒ the validated field has an accepted value' (universally quantified over all inputs): VDI signature, HDS signatures, QCOW2 header gates as one pure function (magic, version, cluster_bits, zstd, sub-cluster size, crypt method, unknown incompatible bits) + data-file and backing-file gates decided inside open, VHDX file-identifier / region-table / metadata-table signatures and required regions, VMDK sparse magic (header and footer); gate constants re-extracted each run; exhaustive enumeration of single-bit flips of every magic and of the unsupported values on valid generated inputs, real code vs model vs expectation",
-            "§6 C12",
-            "universally quantified gate theorems + exhaustive gate enumeration (fault enumeration over the finite flip sets) + correspondence",
-            "Gates of the Hyper-V, envelope/keystore and key-safe parsers are enumerated against the real code (implementation vs expectation); their Lean models belong to C15-C17. Only raised-vs-returned is compared. VMDK(fh) deliberately treats a file without sparse magic as a flat extent (not a gate)."),
-    "C17": ("Lean 4 theorems over a model of hyperv.py (header pair, replay log, object-table walk with the once-per-offset rule, key-table registration ordered by sequence number, entry framing, free entries, key / typed value decoding, file-object pointers, parent linking through the active table of an index, as_dict): value_roundtrip (all six leaf types in range, any slack; unsigned_is_not_signed), file_object_value, entry_walk (+ zero-terminated, free_entries_ignored; induction over arbitrary entry lists), active_header_max_seq, active_table_max_seq / active_table_exists (any registration order), tree_decode_partial (a stored table parses to all its (offset, parent, key, typed value) records), object_walk_terminates / entry_loop_terminates (fuel size+1 suffices: pigeonhole on distinct table offsets); struct layouts, signatures, enums, masks and struct formats re-extracted from c_hyperv / hyperv.py each run; independent file writer; as_dict() and a typed walk of the real code vs model vs construction truth, plus hostile edits model-vs-implementation",
-            "§6 C17",
-            "unbounded proofs (induction over entry lists, registration orders, object-table walk) + extraction + differential correspondence",
-            "PARTIAL: the assembly of the decoded records into the nested tree for arbitrary multi-table layouts (tree_decode) is not a theorem; it is covered by the executable model (kernel-evaluated example with competing tables, free entries, file objects) and the correspondence. Modelled, not verified: cstruct, struct.unpack, list.sort stability, strict utf-8 / utf-16-le decoding, dict semantics. Leaf values directly under the root (as_dict raises TypeError) and Python's recursion limit are outside the property."),
-    "C15": ("Lean 4 theorems over a model of the encrypted-VMX unlock path (KeySafe.from_text / _parse_key_locator / _split_list / _parse_crypto_dict / unquote, Phrase.unwrap, _decrypt_hmac, unseal_with_phrase, VMX.unlock_with_phrase) with the primitives as parameters: unlock_roundtrip (a file sealed by the writer unlocks to exactly its configuration, for every MAC of the table, any KDF/cipher/rounds/salt/IV/content, CBC-inverts-encrypt as a hypothesis), keysafe_roundtrip (from_text of a rendered key safe = the pairs), pkcs7_strip_roundtrip (every plaintext incl. last byte = pad length), decrypt_hmac_roundtrip, fail_closed + unlock_ok_iff (attr changes only after both stages verified), wrong_mac_is_error, mac_covers_plaintext, padding_authenticated / bad_padding_is_error / altered_byte_refused_or_mac_input_changes (decrypted text = plaintext ‖ k bytes of value k, MAC over that plaintext), unseal_authenticated, unwrap_is_function_of_locator, tables_total; tables and grammar literals re-extracted from the live module each run; independent sealer (pycryptodome/hashlib) x real code x model on all 18 combinations, wrong passphrases, single-byte alterations of every encrypted field, multi-pair key safes with shared phrase ids, files unlocked in sequence in one process",
-            "§6 C15",
-            "unbounded proofs (induction over the grammar / the locator list; round trips with primitive laws as hypotheses) + extraction + differential correspondence with fault enumeration",
-            "Primitives are modelled, not verified: PBKDF2, HMAC, AES-CBC, base64, int(), UTF-8 decoding and the .vmx dictionary syntax are parameters of the model, supplied per attempt as a table computed with the real libraries (detection of an altered MACed byte is HMAC's property). Finding D26 (padding not authenticated) was repaired in /repo 8052c1c; alterations reaching only padding are ordinary in-scope attempts (truth: refused)."),
-    "C14": ("Lean 4 theorems over the metadata layer Hv/Meta.lean (built on the open/parse models of C01-C06/C10): ext_walk_roundtrip (for every list of header "
-            "extensions - any count, types, payload lengths incl. multiples of 8 - the walk of QCow2._read_extensions on the encoded area returns exactly the list; induction "
-            "over the list, with the fuel QCow2.open uses), ext_padding_spec ((len+7)&0xFFFFFFF8 = round-up-to-8 on 32-bit lengths), snapshot_table_offsets (entry i is parsed "
-            "at the 8-byte aligned offset after its predecessors; induction over nb_snapshots), snapshot_entry_layout (id / name / unknown extra data are the stored bytes at "
-            "40+extra, +id; entry_size), descriptor_kv_roundtrip (+_unquoted: key = \"value\" is split at the FIRST '=' for every key without '=' and every value, which may "
-            "contain '='), max_seq_header_chosen / max_seq_header_unique, parent_locator_dict_roundtrip; struct layouts, padding literals/operators, the string-method calls of "
-            "DiskDescriptor.parse and the comparison operator of the VHDX header choice re-extracted from the source on every run; independent writers for 8 families "
-            "(qcow2, vhdx, vmdk text/embedded, vhd, vdi, hds, Parallels XML); real objects' public attributes vs model vs construction truth",
-            "§6 C14",
-            "unbounded proof (induction over extension lists / snapshot counts / strings) + extraction + differential correspondence",
-            "Partial: the snapshot table and parent locator theorems are stated on file positions / the dictionary (byte-level halves of the round trips), the numeric fields are "
-            "Field.decode of the extracted layouts (pinned by _spec theorems, exercised by the harness). backing_format / image_backing_file are compared after the documented "
-            "upper-casing. Duplicate keys / duplicate known extension types, invalid UTF-8/UTF-16 and other spellings of int()/UUID() are outside the generated truth."),
-    "C18": ("Lean 4 theorems over executable models of _parse_dictionary / VMX.parse, VMX.disks, OVF.__init__ / OVF.disks, VBox.disks and PVS.disks: dict_lookup_is_last_assignment / dict_last_assignment_wins / dict_keys_case_insensitive / dict_ignores_comments_and_blanks (for every list of lines; rendered lines with any padding, casing and quoting parse back), device_key_parse (the character-set lstrip is harmless for digit bus/unit), vmx_disks_exact / vmx_text_disks_exact (for every abstract VM — any devices of the code's classes with any bus:unit and properties, any unrelated settings, any order — disks() = sorted files of exactly the devices passing the disk filter, with multiplicity), vbox_disks_exact / vbox_disks_mem_iff (every proper descendant HardDisk of type Normal and format VDI in any case, any nesting depth, document order), pvs_disks_exact / pvs_disks_mem_iff; the ElementPath expressions are compiled on every run with the live xpath_tokenizer into selector lists the model interprets, device classes / separators / attribute names and the interpreter's lower()/isspace tables are re-extracted each run; independent writers (VMX/OVF/VBox/PVS) with random casing, order, comments, quoting, prefixes, re-assigned keys (A/b/A) and nested registries; real code vs model vs writer truth",
-            "§6 C18",
-            "unbounded proofs (induction over line lists, settings lists and element trees) + extraction (incl. compiled XPath) + differential correspondence",
-            "XML text -> element tree is not modelled (the model receives the tree defusedxml built; C19). ElementPath selector semantics and str.strip/lower/partition/split are transcribed (modelled, tied by correspondence); str.lower() is per code point (final-sigma rule outside the model). OVF is covered by the executable model + correspondence (ovf theorems: see agent report). Outside 'well-formed' (reported by gen_configs' exotic stream, not in the default stream): legacy RDM device types, TAB after '=', OVF disks without fileRef, VirtualSystemCollection; a class-prefixed VMX key without '.' raises."),
-    "C20": ("Lean 4 theorems visor_member_extracts_stored_bytes (every listed visor member with a recorded data offset extracts to file[offset, offset+size), offset = the little-endian word at header+496, for every file content / member count / order / placement, GNU long names included), visor_next_header_adjacent, plain_tar_unchanged (visor-aware listing = standard listing on archives without visor data offsets; induction over the iteration), vmtar_listing_terminates (fuel size/512+2 always suffices) over a model of VisorTarInfo.frombuf/_proc_member and the inherited CPython tarfile iteration (nts, nti incl. base-256, checksums, frombuf, _proc_builtin, _proc_gnulong, next, extractfile); slice positions/magic/struct formats in VisorTarInfo.frombuf re-extracted from the source on every run; independent archive writer; real code vs model vs construction truth (and vs tarfile.open for plain archives)",
-            "§6 C20",
-            "unbounded proof (induction over the member iteration) + extraction + differential correspondence",
-            "Modelled, not verified: CPython tarfile (transcribed from 3.12). Outside the model (reported as unsupported, never compared): pax headers, old GNU sparse members, int()'s signed/0o/underscore octal spellings. A visor prefix field of 151 bytes without NUL is compared model-vs-implementation only (the property speaks about extracted bytes)."),
-    "C19": ("Lean 4 theorems entity_decl_refused (any event stream containing an entity declaration / unparsed-entity declaration / external-entity reference, at any position and nesting depth, is refused at the first such event and nothing after it is consumed), declares_entities_refused, no_decl_parses_as_usual (no entity events: consumed exactly as by the plain parser), all_entrypoints_hardened (decide over the XML entry-point and import tables re-extracted from the source AST on every run: exactly one parse call per XML-reading module, each resolving to defusedxml.ElementTree.fromstring with default flags; non-hardened XML imports only under TYPE_CHECKING), defaults_spec (the installed defusedxml's default flags); hostile and benign documents x prolog variants at all four entry points under an audit hook and the time/memory watchdog: real code vs model vs expectation",
-            "§6 C19",
-            "proof of the decision logic + kernel-evaluated entry-point table (regenerated from the source) + differential runtime check with hostile documents",
-            "PARTIAL by nature: expat and defusedxml are trusted libraries; the model is the hardened parser's decision logic over the expat event stream and the wiring of the four entry points. What the model cannot exhibit: expat's own behaviour on malformed input, memory use of the C parser."),
-    "C09": ("Lean 4 theorems all_sites_readonly and single_writer (decide over the I/O call-site table re-extracted from the source AST of every module on every run: path opens only 'rb'/'r', read_text/read_bytes only, write-like methods only on private in-memory streams — directly or through helpers all of whose callers pass one —, no os/shutil/tempfile/subprocess/socket/mmap calls, no dynamic evaluation, no in-place crypto output, no buffer aliasing of caller handles; the only writers are the two --output lines of tools/envelope.py: main), readonly_trace_preserves_fs (induction over traces on an abstract file system), only_the_named_output_changes, firstViolation_none_iff; runtime audit (sys.addaudithook attributed to dissect.hypervisor frames + recording handles that accept writes + content comparison) over the C01-C07/C10/C20 workloads, envelope decrypt, Hyper-V files incl. outstanding replay-log entries, VMX unlock, OVF/VBox/PVS and the decrypt tool; the observed trace is judged by the Lean model and every path open must map to an extracted site",
-            "§6 C09",
-            "kernel-evaluated call-site table (regenerated from the source) + proof over operation traces + runtime audit correspondence",
-            "PARTIAL for the 'all code paths' clause: the table covers what is visible in the AST (it also proves there is no dynamic dispatch site), the runtime audit is sampling; effects inside C extensions that raise no audit event are invisible."),
-    "C11": ("Lean 4 termination theorems, each for *arbitrary* header / table / file contents: vdi_read_terminates, vhd_read_terminates, vhdx_read_terminates, hds_read_terminates, vmdk_getRuns_terminates, vmdk_compressed_run_terminates (induction on fuel with a progress >= 1 argument), chain_walk_terminates (Parallels snapshot graphs of any shape: pigeonhole over the shot list), vmtar_listing_terminates; every model loop is fuel-recursive with a distinct non-termination outcome, so the theorems say that outcome is unreachable; mutation streams (field values 0/1/max/sign/±1/self-reference in both endiannesses, truncations, corruption), deflate bombs with disagreeing header/footer, cyclic snapshot graphs, negative tar sizes, mutated Hyper-V files / envelopes / key safes: the real code under watchdog + tracemalloc bound, the Lean models on the same bytes must never answer nonterm",
-            "§6 C11",
-            "unbounded termination proofs (progress / pigeonhole) + fault-injection correspondence under a watchdog and an allocation bound",
-            "PARTIAL: real CPU time and memory of CPython, cstruct and zlib are measured, not proved. Not yet a theorem: progress of QCOW2 _yield_runs (the model reports nonterm on a zero-length run and the harness flags any nonterm from the driver), Hyper-V / envelope loops (see C16/C17). The inflate bound is a parameter of the models (max_length = allocation unit at every call site) and is exercised by the bomb cases."),
-    "C13": ("Lean 4 wide-offset theorems over the extracted masks / layouts: qcow2_offset_mask_wide and qcow2_l1_mask_wide (every 512-aligned host offset < 2^56 survives the L2 / L1 masks under any flag bits; bit-extensional proof), qcow2_compressed_descriptor_wide (every cluster size 9..21: descriptor decodes to its host offset < 2^x and sector count), sesparse_entry_wide (every grain number < 2^60 recombines from the split hi/lo fields), vhdx_file_offset_wide (44-bit MiB offsets through the extracted bit-field), vhd_bat_entry_unsigned (32-bit unsigned sectors, format string extracted); sparse counting backing files with tables / blocks / clusters / grains beyond 2^32 bytes, 2^32 sectors and up to 2^55, virtual sizes of tens of TiB, few vs many allocated units: content real code vs Lean model vs construction truth, and bytes read at open / per request against a bound that depends on mapping metadata and request only",
-            "§6 C13",
-            "unbounded proofs of the wide-offset arithmetic + extraction + differential correspondence with I/O accounting on sparse multi-terabyte files",
-            "PARTIAL: the I/O bound (no scan, no dependence on allocated data) is measured on the real code against a bound computed from the generator's geometry, not yet proved on an instrumented model (planned: footprint theorems 'the result depends only on the bytes of the tables and units the request maps to'). Read-ahead inside Python's own file objects is outside the model."),
-    "C16": ("Lean 4 theorems over a model of util/envelope.py + tools/envelope.py with SHA-256 / PBKDF2 / AES-GCM as parameters (structure Crypto, no axioms): attrs_roundtrip (read(pack as) = as for every well-formed attribute list of all twelve types, by induction), header_repack_identity (the re-serialised header fed to GCM is the stored block), padding_strip (every payload and padding length incl. 0), decrypt_fail_closed / decrypt_wrong_key (key-hash gate, missing IV, tag mismatch => error, no plaintext), aad_covers (success => stored tag = tag over header||AAD and ciphertext), keystore_deterministic (key = pbkdf2(data1||SALT, data2, 100000) of the stored values, pure function), cli_writes_exactly, envelope_roundtrip (open + decrypt of header||ciphertext||AEAD footer returns exactly the payload); layouts, magics, salt, type map, literals re-extracted each run; independent envelope/keystore writer (pycryptodome) vs real code vs model; the model's crypto is a finite table computed with the real libraries for exactly the model's calls",
-            "§6 C16",
-            "unbounded proofs (induction over attribute lists; control-flow theorems over abstract crypto) + extraction + differential correspondence incl. tamper enumeration, keystore sequences in one process and the CLI in a temp dir",
-            "Crypto is a parameter: AES-GCM's own authenticity / PBKDF2 / SHA-256 are the libraries'. Modelled, not verified: cstruct, CPython float32<->double conversion, str.strip/split/partition, urllib unquote, binascii base64 (non-strict), UTF-8 validity, pycryptodome verify() and key-length check. Known finding D27 (float32 signalling-NaN attribute breaks the MAC) is listed in known_findings.json."),
-}
+# per property: [level text, design ref, technique, level note] — kept in a JSON file so that work copies merge easily
+CHECKS = {k: tuple(v) for k, v in json.loads((ROOT / "harness" / "manifest_checks.json").read_text()).items()}
 
 NOT_YET = {
 }
